@@ -8,7 +8,7 @@
      wal_storage.rs flush_wal_for_table;  dirty_tracker.rs
      lifecycle.rs  Database::checkpoint
      recovery.rs   recover_all_tables (redo of every valid frame whose table file exists)
-     persistence.rs CatalogPersistence::save (File::create = truncate, header, body, sync_all)
+     persistence.rs CatalogPersistence::save (temporary file: create, header, body, sync_all; rename over the catalog)
      file_manager.rs create_table / create_index (create 1 page, header, msync, then grow + root)
    A statement is abstracted to the page images it stores in place (observed), the pages it
    reports to the dirty tracker, and the grow calls in between.  Page images are names (Z, 0 =
@@ -57,20 +57,22 @@ Record st := mk {
   in_txn : bool;
   seq : Z;                      (* number of the current segment *)
   tabs : list Z;                (* tables of the in-memory catalog *)
-  cat_v : catf;                 (* catalog file content *)
-  cat_d : list Z                (* catalog file as of its last sync_all *)
+  cat_v : catf;                 (* catalog file turdb.catalog *)
+  cat_d : list Z;               (* ... its durable content *)
+  cat_t : catf;                 (* temporary file turdb.catalog.tmp being written by save *)
+  cat_td : option (list Z)      (* ... as of its last sync_all (None: not synced since created) *)
 }.
 
 Definition init : st :=
-  mk pempty pempty [] [] [] [] [] [] [] [] false false 1 [] (CatOk []) [].
+  mk pempty pempty [] [] [] [] [] [] [] [] false false 1 [] (CatOk []) [] CatTorn None.
 
-Definition set_vol s x := mk x (dur s) (files s) (dfiles s) (closed_fl s) (closed_du s) (cur_fl s) (cur_du s) (buf s) (dirty s) (ever_dirty s) (in_txn s) (seq s) (tabs s) (cat_v s) (cat_d s).
-Definition set_files s x := mk (vol s) (dur s) x (dfiles s) (closed_fl s) (closed_du s) (cur_fl s) (cur_du s) (buf s) (dirty s) (ever_dirty s) (in_txn s) (seq s) (tabs s) (cat_v s) (cat_d s).
-Definition set_dur s x y := mk (vol s) x (files s) y (closed_fl s) (closed_du s) (cur_fl s) (cur_du s) (buf s) (dirty s) (ever_dirty s) (in_txn s) (seq s) (tabs s) (cat_v s) (cat_d s).
-Definition set_wal s cf cd uf ud b q := mk (vol s) (dur s) (files s) (dfiles s) cf cd uf ud b (dirty s) (ever_dirty s) (in_txn s) q (tabs s) (cat_v s) (cat_d s).
-Definition set_dirty s d e := mk (vol s) (dur s) (files s) (dfiles s) (closed_fl s) (closed_du s) (cur_fl s) (cur_du s) (buf s) d e (in_txn s) (seq s) (tabs s) (cat_v s) (cat_d s).
-Definition set_txn s b := mk (vol s) (dur s) (files s) (dfiles s) (closed_fl s) (closed_du s) (cur_fl s) (cur_du s) (buf s) (dirty s) (ever_dirty s) b (seq s) (tabs s) (cat_v s) (cat_d s).
-Definition set_cat s t v d := mk (vol s) (dur s) (files s) (dfiles s) (closed_fl s) (closed_du s) (cur_fl s) (cur_du s) (buf s) (dirty s) (ever_dirty s) (in_txn s) (seq s) t v d.
+Definition set_vol s x := mk x (dur s) (files s) (dfiles s) (closed_fl s) (closed_du s) (cur_fl s) (cur_du s) (buf s) (dirty s) (ever_dirty s) (in_txn s) (seq s) (tabs s) (cat_v s) (cat_d s) (cat_t s) (cat_td s).
+Definition set_files s x := mk (vol s) (dur s) x (dfiles s) (closed_fl s) (closed_du s) (cur_fl s) (cur_du s) (buf s) (dirty s) (ever_dirty s) (in_txn s) (seq s) (tabs s) (cat_v s) (cat_d s) (cat_t s) (cat_td s).
+Definition set_dur s x y := mk (vol s) x (files s) y (closed_fl s) (closed_du s) (cur_fl s) (cur_du s) (buf s) (dirty s) (ever_dirty s) (in_txn s) (seq s) (tabs s) (cat_v s) (cat_d s) (cat_t s) (cat_td s).
+Definition set_wal s cf cd uf ud b q := mk (vol s) (dur s) (files s) (dfiles s) cf cd uf ud b (dirty s) (ever_dirty s) (in_txn s) q (tabs s) (cat_v s) (cat_d s) (cat_t s) (cat_td s).
+Definition set_dirty s d e := mk (vol s) (dur s) (files s) (dfiles s) (closed_fl s) (closed_du s) (cur_fl s) (cur_du s) (buf s) d e (in_txn s) (seq s) (tabs s) (cat_v s) (cat_d s) (cat_t s) (cat_td s).
+Definition set_txn s b := mk (vol s) (dur s) (files s) (dfiles s) (closed_fl s) (closed_du s) (cur_fl s) (cur_du s) (buf s) (dirty s) (ever_dirty s) b (seq s) (tabs s) (cat_v s) (cat_d s) (cat_t s) (cat_td s).
+Definition set_cat s t v d tv td := mk (vol s) (dur s) (files s) (dfiles s) (closed_fl s) (closed_du s) (cur_fl s) (cur_du s) (buf s) (dirty s) (ever_dirty s) (in_txn s) (seq s) t v d tv td.
 
 (* ------------------------------------------------------------------ events *)
 Inductive ev :=
@@ -88,7 +90,8 @@ Inductive ev :=
 | EApply (t : Z)              (* checkpoint copies the closed frames of table t into its file *)
 | ERemove                     (* io 5: closed segments removed *)
 | EAddTab (t : Z)             (* table enters the in-memory catalog *)
-| ECatTrunc | ECatHdr | ECatBody | ECatSync     (* io 4, 8, 8, 2 on turdb.catalog *)
+| ECatTrunc | ECatHdr | ECatBody | ECatSync     (* io 4, 8, 8, 2 on turdb.catalog.tmp *)
+| ECatRename                                    (* io 7: the temporary file renamed over turdb.catalog *)
 | EMetaW | EMetaSync                            (* io 8, 2 on turdb.meta *)
 | ETxn (b : bool)
 | EReset                      (* new session: tracker empty, no transaction *)
@@ -115,11 +118,14 @@ Definition apply_ev (s : st) (e : ev) : st :=
   | ERotate => set_wal s (closed_fl s ++ cur_fl s ++ buf s) (closed_du s ++ cur_du s) [] [] [] (seq s + 1)
   | EApply t => set_vol s (redo (files s) (only_table t (closed_fl s)) (vol s))
   | ERemove => set_wal s [] [] (cur_fl s) (cur_du s) (buf s) (seq s)
-  | EAddTab t => set_cat s (add_z t (tabs s)) (cat_v s) (cat_d s)
-  | ECatTrunc => set_cat s (tabs s) CatTorn (cat_d s)
-  | ECatHdr => set_cat s (tabs s) CatTorn (cat_d s)
-  | ECatBody => set_cat s (tabs s) (CatOk (tabs s)) (cat_d s)
-  | ECatSync => set_cat s (tabs s) (cat_v s) (match cat_v s with CatOk ts => ts | CatTorn => cat_d s end)
+  | EAddTab t => set_cat s (add_z t (tabs s)) (cat_v s) (cat_d s) (cat_t s) (cat_td s)
+  | ECatTrunc => set_cat s (tabs s) (cat_v s) (cat_d s) CatTorn None
+  | ECatHdr => set_cat s (tabs s) (cat_v s) (cat_d s) CatTorn (cat_td s)
+  | ECatBody => set_cat s (tabs s) (cat_v s) (cat_d s) (CatOk (tabs s)) (cat_td s)
+  | ECatSync => set_cat s (tabs s) (cat_v s) (cat_d s) (cat_t s)
+                        (match cat_t s with CatOk ts => Some ts | CatTorn => cat_td s end)
+  | ECatRename => set_cat s (tabs s) (cat_t s) (match cat_td s with Some ts => ts | None => cat_d s end)
+                          CatTorn None
   | EMetaW => s
   | EMetaSync => s
   | ETxn b => set_txn s b
@@ -169,7 +175,7 @@ Definition ckpt_evs (s : st) (ord : list Z) : list ev :=
   ERotate :: flat_map (fun t => [EApply t; EMsync t]) (arrange ord (frame_tables (files s) (closed_fl s ++ cur_fl s ++ buf s)))
   ++ [ERemove].
 
-Definition cat_save : list ev := [ECatTrunc; ECatHdr; ECatBody; ECatSync].
+Definition cat_save : list ev := [ECatTrunc; ECatHdr; ECatBody; ECatSync; ECatRename].
 
 Definition events (s : st) (o : op) : list ev :=
   match o with
@@ -265,10 +271,11 @@ Definition emit (s : st) (e : ev) : list phys :=
   | ESetLen => [PIo 3 (wal_role s) []]
   | ERotate => [PIo 4 (wal_role s + 1) []]
   | ERemove => [PIo 5 (wal_role s - 1) []]
-  | ECatTrunc => [PIo 4 2000 []]
-  | ECatHdr => [PIo 8 2000 []]
-  | ECatBody => [PIo 8 2000 []]
-  | ECatSync => [PIo 2 2000 []]
+  | ECatTrunc => [PIo 4 2004 []]
+  | ECatHdr => [PIo 8 2004 []]
+  | ECatBody => [PIo 8 2004 []]
+  | ECatSync => [PIo 2 2004 []]
+  | ECatRename => [PIo 7 2000 []]
   | EMetaW => [PIo 8 2001 []]
   | EMetaSync => [PIo 2 2001 []]
   | _ => []
@@ -283,7 +290,7 @@ Fixpoint emit_all (s : st) (es : list ev) : list phys :=
 Definition is_io (e : ev) : bool :=
   match e with
   | EGrow _ | EMsync _ | EFlush | ESync | ETrunc | ESetLen | ERotate | ERemove
-  | ECatTrunc | ECatHdr | ECatBody | ECatSync | EMetaW | EMetaSync => true
+  | ECatTrunc | ECatHdr | ECatBody | ECatSync | ECatRename | EMetaW | EMetaSync => true
   | _ => false
   end.
 
